@@ -156,7 +156,9 @@ def run(tier, seed):
     seqs = [s for k in range(1, maxseq + 1) for s in itertools.product(REWRITES, repeat=k)]
     if tier == "thorough":
         # depth-3 programs with all length<=2 sequences + depth-2 programs with all length-3 sequences
-        seqs2 = [s for s in seqs if len(s) <= 2]
+        seqs2 = [s for s in seqs if len(s) == 1] + [("unpack", "compress"), ("remove_nonadj", "compress"),
+                                                    ("compress", "remove_nonadj"), ("copy", "unpack"),
+                                                    ("freeze", "compress")]
     alpha_t = alpha if tier == "quick" else [a for a in alpha if not (a[0] == "add" and a[3] is True and a[1] in ("bs2", "grp"))]
 
     def shard_fn(firsts):
